@@ -3,10 +3,12 @@
 set -u
 patch=$1; shift
 cd /repo && git status --short | grep -v '^??' && { echo "repo dirty"; exit 2; }
+rm -rf /verif/.work/evidence_backup; cp -r /verif/evidence /verif/.work/evidence_backup
 git -C /repo apply "$patch" || { echo "patch does not apply"; exit 2; }
 for p in "$@"; do
   (cd /verif && timeout 3000 ./check $p --tier ${TIER:-quick} 2>&1 | tail -${TAIL:-4} | cut -c1-300)
   echo "exit=$? for $p"
 done
 git -C /repo checkout -- . 
+rm -rf /verif/evidence; mv /verif/.work/evidence_backup /verif/evidence
 git -C /repo status --short | grep -v '^??'
